@@ -389,7 +389,7 @@ func c14E2E(p *fw.ParentCtx) {
 		jobs = append(jobs, job{name: name, m: mutant{Base: name, Kind: "builtin"}})
 	}
 	for i, m := range all {
-		if p.Tier != "thorough" && rng.Intn(len(all)) >= 90 && !(m.Kind == "variableMatrixWidths" && m.Index <= 1 && m.Base == "NetherlandsRDNewQuad") {
+		if p.Tier != "thorough" && rng.Intn(len(all)) >= 400 && !(m.Kind == "variableMatrixWidths" && m.Index <= 1 && m.Base == "NetherlandsRDNewQuad") {
 			continue
 		}
 		jobs = append(jobs, job{name: fmt.Sprintf("m%d", i), m: m})
@@ -401,10 +401,14 @@ func c14E2E(p *fw.ParentCtx) {
 		if err != nil {
 			continue
 		}
+		jobDir := filepath.Join(dir, "empty")
 		if j.m.Kind != "builtin" {
+			// one directory per document: hook H2 decodes every file of the directory at start-up
 			doc = applyMutant(doc, j.m)
 			b, _ := json.Marshal(doc)
-			_ = os.WriteFile(filepath.Join(dir, j.name+".json"), b, 0o644)
+			jobDir = filepath.Join(dir, j.name)
+			_ = os.MkdirAll(jobDir, 0o755)
+			_ = os.WriteFile(filepath.Join(jobDir, j.name+".json"), b, 0o644)
 		}
 		j.tq, _ = trueQuadTree(doc)
 		// request the smallest and the largest (<= 18) id present in the document
@@ -424,10 +428,13 @@ func c14E2E(p *fw.ParentCtx) {
 		zb, _ := json.Marshal(req)
 		j.ids = string(zb)
 		cmd := exec.Command("timeout", "-s", "QUIT", "60", bin, "-s", filepath.Join(p.Tmp, "does-not-exist.gpkg"), "-t", filepath.Join(p.Tmp, "c14out.gpkg"), "-tms", j.name, "-z", j.ids)
-		cmd.Env = append(os.Environ(), "TEXEL_VERIF_TMS_DIR="+dir)
+		cmd.Env = append(os.Environ(), "TEXEL_VERIF_TMS_DIR="+jobDir)
 		var stderr bytes.Buffer
 		cmd.Stderr = &stderr
 		err = cmd.Run()
+		if j.m.Kind != "builtin" {
+			_ = os.RemoveAll(jobDir)
+		}
 		ran++
 		code := 0
 		if ee, ok := err.(*exec.ExitError); ok {
